@@ -1139,7 +1139,10 @@ def impl_c07(case, scratch):
     try:
         ctx.add_page("Module:ustring:ustring", 828, USTRING_STUB, model="Scribunto")
         ctx.add_page("Module:echo", 828, ECHO_MODULE, model="Scribunto")
-        ctx.add_page("Module:hang", 828, "local e = {}\nfunction e.main(frame)\n" + case["body"] + "\nend\nreturn e", model="Scribunto")
+        ctx.add_page("Module:hang", 828, case.get("module_src") or
+                     ("local e = {}\nfunction e.main(frame)\n" + case["body"] + "\nend\nreturn e"), model="Scribunto")
+        for nm, src in (case.get("extra") or {}).items():
+            ctx.add_page("Module:" + nm, 828, src, model="Scribunto")
         ctx.add_page("Template:a", 10, "A[{{{1|}}}]")
         ctx.add_page("Module:syn", 828, "local e = {}\nfunction e.main(frame) return 'x' .. end\nreturn e", model="Scribunto")
         ctx.add_page("Module:work", 828, "local e = {}\nfunction e.main(frame) local s = 0 for i = 1, 400000 do s = s + i % 7 end return 'work' .. s end\nreturn e", model="Scribunto")
@@ -1168,7 +1171,7 @@ def impl_c06_probes(case, scratch):
     try:
         ctx.add_page("Module:ustring:ustring", 828, USTRING_STUB, model="Scribunto")
         ctx.add_page("Module:echo", 828, ECHO_MODULE, model="Scribunto")
-        names = case.get("names") or sorted(c06_probes.PROBES)
+        names = case.get("names") or sorted(c06_probes.PROBES, reverse=bool(case.get("reverse")))
         for n in names:
             ctx.add_page("Module:probe " + n, 828,
                          c06_probes.HELP + "local e = {}\nfunction e.main(frame)\n" + c06_probes.PROBES[n] + "\nend\nreturn e", model="Scribunto")
